@@ -220,8 +220,8 @@ def _drive_writes(ops, wscript, mw, thr):
         k.wi = 0
         guard = 0
         while registered(env, IOLoop.WRITE) and guard < 4:
-            if 0 < len(k.sent) < len(expected):
-                reached("drain_resumed")
+            if len(k.sent) < len(expected):
+                reached("drain_resumed")         # bytes were left pending by a blocked send
             fire(env, IOLoop.WRITE)
             guard += 1
         env.run_ready()
@@ -340,8 +340,8 @@ def pre_real(ops: List[Tuple[int, int]], wscript: List[int]) -> bool:
 
 @harness(
     pre=pre_real,
-    quick=dict(N=2, W=1, timeout=100),
-    thorough=dict(N=3, W=2, timeout=1500),
+    quick=dict(N=2, W=1, timeout=100, reach_timeout=240),
+    thorough=dict(N=3, W=2, timeout=1500, reach_timeout=400),
     nshards=dict(quick=8, thorough=8),
     reach=["drain_resumed"],
     units=_W_UNITS,
